@@ -6,6 +6,7 @@ import ast
 from .. import AnalysisError, flow, gd, cmp
 from ..loader import walk_stmts
 from ..report import Ctx
+from ..canon import alpha_text
 from . import c10, c17
 
 DISP = "nrel/hive/dispatcher/instruction_generator/dispatcher.py"
@@ -276,7 +277,7 @@ def wiring(ctx: Ctx):
             ok = len(a) >= 3 and flow.dump(a[2]) == "assignment_ops.h3_distance_cost"
             ctx.check(ok, "D2", "DU.wiring", "the dispatcher minimises h3 grid distance", solve, e.raw, why_bad=f"cost function {flow.dump(a[2]) if len(a) > 2 else '?'}", construct="_solve_assignment:cost-fn")
             kw = {k.arg: flow.dump(k.value) for k in a[1].keywords} if len(a) > 1 and isinstance(a[1], ast.Call) else {}
-            ctx.check(kw.get("sort_key") == "lambda r: (-r.value, r.id)", "D2", "DU.wiring", "requests are handed over sorted by (-value, id) (a total order)", solve, e.raw,
+            ctx.check(kw.get("sort_key") == alpha_text("lambda r: (-r.value, r.id)"), "D2", "DU.wiring", "requests are handed over sorted by (-value, id) (a total order)", solve, e.raw,
                       why_bad=f"sort_key={kw.get('sort_key')}", construct="_solve_assignment:request-order")
         if found:
             if p.kind == "return":
